@@ -23,14 +23,14 @@ func c09Merge(c *vk.Ctx) {
 				if s == 4 || s == 5 {
 					continue
 				}
-				jobs = append(jobs, Job{Harness: "MergeOKCount", Bound: bound, Params: map[string]int{"n": 2, "v0": v0, "v1": v1, "script": s}})
+				jobs = append(jobs, Job{Harness: "MergeOKCount", Bound: bound, BudgetS: vk.Pick(c, 8.0, 300.0), FallbackDelay: vk.Pick(c, 4, 7), Params: map[string]int{"n": 2, "v0": v0, "v1": v1, "script": s}})
 			}
 		}
 	}
 	for k0 := 0; k0 < 3; k0++ {
 		for k1 := 0; k1 < 3; k1++ {
 			for _, s := range []int{4, 5, 6} {
-				jobs = append(jobs, Job{Harness: "MergeOKCount", Bound: bound, Params: map[string]int{"n": 2, "k0": k0, "k1": k1, "script": s, "v0": k0 % 2, "v1": 0}})
+				jobs = append(jobs, Job{Harness: "MergeOKCount", Bound: bound, BudgetS: vk.Pick(c, 8.0, 300.0), FallbackDelay: vk.Pick(c, 4, 7), Params: map[string]int{"n": 2, "k0": k0, "k1": k1, "script": s, "v0": k0 % 2, "v1": 0}})
 			}
 		}
 	}
@@ -38,7 +38,7 @@ func c09Merge(c *vk.Ctx) {
 	b3 := -1
 	for _, vs := range [][3]int{{0, 0, 0}, {0, 1, 0}, {1, 2, 3}, {0, 0, 3}, {2, 0, 1}} {
 		for _, s := range []int{0, 1, 2, 5, 6} {
-			jobs = append(jobs, Job{Harness: "MergeOKCount", Bound: b3, Params: map[string]int{"n": 3, "v0": vs[0], "v1": vs[1], "v2": vs[2], "k0": 1, "k1": 2, "k2": 0, "script": s}})
+			jobs = append(jobs, Job{Harness: "MergeOKCount", Bound: b3, BudgetS: vk.Pick(c, 8.0, 300.0), FallbackDelay: vk.Pick(c, 3, 6), Params: map[string]int{"n": 3, "v0": vs[0], "v1": vs[1], "v2": vs[2], "k0": 1, "k1": 2, "k2": 0, "script": s}})
 		}
 	}
 	c.P.Rule = "E1: every schedule (within the stated preemption bound; unbounded = all, up to happens-before state caching) of one merge session over n scripted children, for every verdict/count table and client script listed in the harness; a job = (children, verdict table, script); distinct_nontrivial = jobs, distinct_outcomes = distinct client-visible reply streams"
